@@ -16,17 +16,17 @@ import (
 // Outcome of the last reconcile as observed from the controller's log lines
 // (the metrics object that counts the same thing is unexported).
 type recOutcome struct {
-	id            int
-	reloadEnq     bool // "haproxy reload enqueued"
-	reloadedSync  bool // master `reload` seen inside the reconcile task
-	dynamic       bool // "haproxy updated without needing to reload"
-	noop          bool // "old and new configurations match"
-	failed        bool // "error trying to update haproxy"
-	fullSync      bool
-	partial       bool
-	adminCmds     int
-	faults        int
-	wroteCfg      bool
+	id           int
+	reloadEnq    bool // "haproxy reload enqueued"
+	reloadedSync bool // master `reload` seen inside the reconcile task
+	dynamic      bool // "haproxy updated without needing to reload"
+	noop         bool // "old and new configurations match"
+	failed       bool // "error trying to update haproxy"
+	fullSync     bool
+	partial      bool
+	adminCmds    int
+	faults       int
+	wroteCfg     bool
 }
 
 func (r *Run) logSink(prefix, args string) {
@@ -410,6 +410,9 @@ func (r *Run) checkEffective(prop, oracle string) bool {
 
 func (r *Run) syncPoint(note string) {
 	r.probe("sync_point")
+	if dir := os.Getenv("HAPSIM_DUMP"); dir != "" {
+		dumpTo(filepath.Join(dir, fmt.Sprintf("sync-%03d", r.probes["sync_point"])), r.FileSet(r.prefix))
+	}
 	r.trace("SYNC POINT %s", note)
 	if len(r.loadProblems) > 0 && r.or.Loadable {
 		p := r.loadProblems[0]
